@@ -4,7 +4,7 @@ package aac
 func HarnessC07_Aac() {
 	max := 12
 	if vTier() == 1 {
-		max = 16
+		max = 14 // (16: 1.5 million paths, unfinished after 25 minutes)
 	}
 	data := vBytes(vChoice(max + 1))
 	a, _ := NewADTS()
